@@ -5,6 +5,7 @@ pub mod c08;
 pub mod c11;
 pub mod c11_core;
 pub mod c17;
+pub mod c18;
 pub mod c19;
 pub mod c20;
 pub mod tree;
